@@ -264,6 +264,12 @@ func (c *RemoteClient) Databases() []DatabaseInfo {
 }
 
 func (c *RemoteClient) Database(name string) *DatabaseInfo {
+	// exact name first: PostgreSQL names are case-sensitive ("App" and "app" may coexist)
+	for _, db := range c.Databases() {
+		if db.Name == name {
+			return &db
+		}
+	}
 	for _, db := range c.Databases() {
 		if strings.EqualFold(db.Name, name) {
 			return &db
@@ -311,7 +317,14 @@ func (c *RemoteClient) TablesByName(dbName string) []TableInfo {
 }
 
 func (c *RemoteClient) Table(dbOID uint32, tableName string) *TableInfo {
-	for _, t := range c.Tables(dbOID) {
+	tables := c.Tables(dbOID)
+	// exact name first: PostgreSQL names are case-sensitive ("Users" and "users" may coexist)
+	for _, t := range tables {
+		if t.Name == tableName {
+			return &t
+		}
+	}
+	for _, t := range tables {
 		if strings.EqualFold(t.Name, tableName) {
 			return &t
 		}
